@@ -1792,7 +1792,7 @@ sf_read_short	(SNDFILE *sndfile, short *ptr, sf_count_t len)
 
 	count = psf->read_short (psf, ptr, len) ;
 
-	if (psf->read_current + count / psf->sf.channels <= psf->sf.frames)
+	if (count <= (psf->sf.frames - psf->read_current) * psf->sf.channels)
 		psf->read_current += count / psf->sf.channels ;
 	else
 	{	count = (psf->sf.frames - psf->read_current) * psf->sf.channels ;
@@ -1842,7 +1842,7 @@ sf_readf_short		(SNDFILE *sndfile, short *ptr, sf_count_t frames)
 
 	count = psf->read_short (psf, ptr, frames * psf->sf.channels) ;
 
-	if (psf->read_current + count / psf->sf.channels <= psf->sf.frames)
+	if (count <= (psf->sf.frames - psf->read_current) * psf->sf.channels)
 		psf->read_current += count / psf->sf.channels ;
 	else
 	{	count = (psf->sf.frames - psf->read_current) * psf->sf.channels ;
@@ -1900,7 +1900,7 @@ sf_read_int		(SNDFILE *sndfile, int *ptr, sf_count_t len)
 
 	count = psf->read_int (psf, ptr, len) ;
 
-	if (psf->read_current + count / psf->sf.channels <= psf->sf.frames)
+	if (count <= (psf->sf.frames - psf->read_current) * psf->sf.channels)
 		psf->read_current += count / psf->sf.channels ;
 	else
 	{	count = (psf->sf.frames - psf->read_current) * psf->sf.channels ;
@@ -1950,7 +1950,7 @@ sf_readf_int	(SNDFILE *sndfile, int *ptr, sf_count_t frames)
 
 	count = psf->read_int (psf, ptr, frames * psf->sf.channels) ;
 
-	if (psf->read_current + count / psf->sf.channels <= psf->sf.frames)
+	if (count <= (psf->sf.frames - psf->read_current) * psf->sf.channels)
 		psf->read_current += count / psf->sf.channels ;
 	else
 	{	count = (psf->sf.frames - psf->read_current) * psf->sf.channels ;
@@ -2008,7 +2008,7 @@ sf_read_float	(SNDFILE *sndfile, float *ptr, sf_count_t len)
 
 	count = psf->read_float (psf, ptr, len) ;
 
-	if (psf->read_current + count / psf->sf.channels <= psf->sf.frames)
+	if (count <= (psf->sf.frames - psf->read_current) * psf->sf.channels)
 		psf->read_current += count / psf->sf.channels ;
 	else
 	{	count = (psf->sf.frames - psf->read_current) * psf->sf.channels ;
@@ -2058,7 +2058,7 @@ sf_readf_float	(SNDFILE *sndfile, float *ptr, sf_count_t frames)
 
 	count = psf->read_float (psf, ptr, frames * psf->sf.channels) ;
 
-	if (psf->read_current + count / psf->sf.channels <= psf->sf.frames)
+	if (count <= (psf->sf.frames - psf->read_current) * psf->sf.channels)
 		psf->read_current += count / psf->sf.channels ;
 	else
 	{	count = (psf->sf.frames - psf->read_current) * psf->sf.channels ;
@@ -2116,7 +2116,7 @@ sf_read_double	(SNDFILE *sndfile, double *ptr, sf_count_t len)
 
 	count = psf->read_double (psf, ptr, len) ;
 
-	if (psf->read_current + count / psf->sf.channels <= psf->sf.frames)
+	if (count <= (psf->sf.frames - psf->read_current) * psf->sf.channels)
 		psf->read_current += count / psf->sf.channels ;
 	else
 	{	count = (psf->sf.frames - psf->read_current) * psf->sf.channels ;
@@ -2166,7 +2166,7 @@ sf_readf_double	(SNDFILE *sndfile, double *ptr, sf_count_t frames)
 
 	count = psf->read_double (psf, ptr, frames * psf->sf.channels) ;
 
-	if (psf->read_current + count / psf->sf.channels <= psf->sf.frames)
+	if (count <= (psf->sf.frames - psf->read_current) * psf->sf.channels)
 		psf->read_current += count / psf->sf.channels ;
 	else
 	{	count = (psf->sf.frames - psf->read_current) * psf->sf.channels ;
